@@ -31,9 +31,29 @@ def _member_ok(kind, slicer, v, lo, hi, is_last):
     return lo <= v <= hi
 
 
+CFG_KEYS = ("width", "n_intervals", "n_points", "right_open", "include_max", "last_full", "value_range", "min_n_points", "min_n_intervals", "reference")
+
+
+def remember_configuration(slicer):
+    """Called by the drivers right after construction: the configuration the USER gave.  The oracle judges against it
+    (a slicer that rewrites its own configuration during slice_ must not be able to move the goal posts)."""
+    slicer._vmon_cfg = {k: getattr(slicer, k) for k in CFG_KEYS if hasattr(slicer, k)}
+    return slicer
+
+
 def judge(c, slicer, data, result, exc, tag="slice"):
     """Oracle over one observed slice_ call.  c: Ctx."""
     kind = kind_of(slicer)
+    constructed = getattr(slicer, "_vmon_cfg", None)
+    if constructed is not None:
+        live = {k: getattr(slicer, k) for k in constructed}
+        same = all((live[k] is constructed[k]) or (live[k] == constructed[k]) for k in constructed)
+        c.check(f"{tag}.configuration-unchanged", bool(same), "slice_ changed the slicer's own configuration (the next call is sliced differently)", config_as_constructed={k: (v if not callable(v) else getattr(v, "__name__", "callable")) for k, v in constructed.items()}, config_now={k: (v if not callable(v) else getattr(v, "__name__", "callable")) for k, v in live.items()})
+        if not same:
+            # judge against the configuration as constructed
+            slicer = copy.copy(slicer)
+            for k, v in constructed.items():
+                setattr(slicer, k, v)
     data = np.asarray(data)
     cfg = _cfg(slicer)
     n = len(data)
